@@ -28,6 +28,9 @@ pub uninterp spec fn CONTENT(k: Key) -> Seq<u8>;
 // the storage backend behind the cache (Arc<dyn WriteBackend>): a map from (type, id) to bytes that other processes
 // may change between calls; one call sees one state
 pub struct VBackend { pub files: Ghost<Map<Key, Seq<u8>>> }
+// whether a read of this file is answered by the backend in this state (it may fail for reasons of its own: network, tier);
+// one state gives one answer -- this is what "the same result without the cache" refers to
+pub uninterp spec fn BE_ANSWERS(be: VBackend, k: Key) -> bool;
 impl VBackend {
     pub open spec fn view(&self) -> Map<Key, Seq<u8>> { self.files@ }
     #[verifier::external_body]
@@ -39,11 +42,13 @@ impl VBackend {
     #[verifier::external_body]
     pub fn read_full(&self, tpe: FileType, id: &Id) -> (r: RusticResult<Bytes>)
         ensures r matches Ok(d) ==> self@.dom().contains((tpe, *id)) && d.data@ == self@[(tpe, *id)],
+                r is Ok <==> BE_ANSWERS(*self, (tpe, *id)),
     { unimplemented!() }
     #[verifier::external_body]
     pub fn read_partial(&self, tpe: FileType, id: &Id, cacheable: bool, offset: u32, length: u32) -> (r: RusticResult<Bytes>)
         ensures r matches Ok(d) ==> self@.dom().contains((tpe, *id)) && offset + length <= self@[(tpe, *id)].len()
             && d.data@ == self@[(tpe, *id)].subrange(offset as int, offset + length),
+                r is Ok <==> BE_ANSWERS(*self, (tpe, *id)) && offset + length <= self@[(tpe, *id)].len(),
     { unimplemented!() }
     #[verifier::external_body]
     pub fn needs_warm_up(&self) -> bool { unimplemented!() }
